@@ -62,8 +62,10 @@ def cases(tier, seed, phase):
     # pipe relays
     for relay in ('pipe', 'pipe-single', 'maildrop', 'dovecot'):
         for nr in (1, 2, 3):
-            for outs in itertools.product(['exit0', 'fail5', 'fail', 'fail75', 'timeout'], repeat=nr):
+            for outs in itertools.product(['exit0', 'fail5', 'fail', 'fail75', 'timeout', 'killed'], repeat=nr):
                 if 'timeout' in outs and (tier == 'quick' and nr == 3):
+                    continue
+                if tier == 'quick' and nr == 3 and outs.count('killed') > 1:
                     continue
                 yield {'kind': 'pipe', 'relay': relay, 'outs': list(outs)}
     # http relay
@@ -357,7 +359,8 @@ def run_pipe(case, model):
             f.write('#!/bin/sh\ncat > /dev/null\ncase "$1" in\n')
             for i, o in enumerate(case['outs']):
                 body = {'exit0': 'exit 0', 'fail5': 'echo "5.1.1 no such user"; exit 1', 'fail': 'echo "maildrop: try later" >&2; exit 1',
-                        'fail75': 'echo "maildrop: temp"; exit 75', 'timeout': 'sleep 5; exit 0'}[o]
+                        'fail75': 'echo "maildrop: temp"; exit 75', 'timeout': 'sleep 5; exit 0',
+                        'killed': 'kill -9 $$; sleep 5'}[o]          # dies from a signal: Popen.returncode is negative
                 f.write('  *rcpt%d@*) %s ;;\n' % (i, body))
             f.write('  *) exit 0 ;;\nesac\n')
         os.chmod(prog, os.stat(prog).st_mode | stat.S_IEXEC)
@@ -379,9 +382,9 @@ def run_pipe(case, model):
     per = relay.per_recipient
     outs = case['outs']
     if relay_kind in ('maildrop', 'dovecot'):
-        mo = [{'fail75': 'fail', 'fail5': 'fail5', 'fail': 'fail5'}.get(o, o) for o in outs]      # exit status decides: 75 = temp, else perm
+        mo = [{'fail75': 'fail', 'fail5': 'fail5', 'fail': 'fail5', 'killed': 'fail5'}.get(o, o) for o in outs]      # exit status decides: 75 = temp, else perm
     else:
-        mo = [{'fail75': 'fail'}.get(o, o) for o in outs]
+        mo = [{'fail75': 'fail'}.get(o, o) for o in outs]             # 'killed' is the model's own outcome: transient
     if 'timeout' in mo and per:
         # one Timeout spans the whole loop: everything from the slow recipient on is transient
         k = mo.index('timeout')
